@@ -911,9 +911,29 @@ class C06(Prop):
     coq_targets = ["Properties/C06.vo"]
     property_file = "Properties/C06.v"
     streams = [NextStream(), RunStream(), CivilStream()]
-    trusted_base = []
-    assumptions = []
-    partial_note = ""
+    trusted_base = [
+        "modelled, not verified: parse_date_time after its regex stage (Time/DtExpr.v) and timer_trigger_next (Time/Next.v), written by "
+        "hand from trigger.py l.610-880; the string -> parsed form step is a generator in harness/vh/props/c06.py (same trust as the drivers)",
+        "Section variables with recorded contracts: cron_next/cron_ok (croniter; instance for the correspondence: the Gallina crontab "
+        "successor Time/NextCheck.v cron_next_impl, compared with croniter through the real code on every cron case), sun (astral: "
+        "values passed through as data), lu/ul (zoneinfo: transition table of America/New_York shipped as data; fold=0 rule written out)",
+        "exact integer-microsecond arithmetic for period()/offsets; binary floating point of the real code is only compared with it "
+        "(disagreements are finding D63); timedelta's round-half-even is written out (Common/Civil.v div_rhe)",
+        "virtual clock + zoneinfo-derived wall clock of the running scenarios (harness/vh/workers/c06_run.py); run times are compared "
+        "with a tolerance of 1 ms, a run 1 us early (default subsystem accepts `timeout <= 1e-6`) is within tolerance",
+    ]
+    assumptions = [
+        "theorems: specifications of the fragment `in_fragment` (no sunrise/sunset, month/day existing in every year, time-only "
+        "period start with start < interval and interval | 24h, daily windows with both times of day in [0,24h)); cron through "
+        "`cron_ok`; current time a real local clock reading (`real_now`); elapsed-time period spacing only in zones without transitions",
+        "weekday names, today and tomorrow are read relative to the current time (the reading under which the code conforms); "
+        "month/day in once() is read as 'every year' (documentation), which the code violates (D61)",
+        "generator: current times 2024-01-01..2025-12-31, zone America/New_York, English weekday names, lower-case units, "
+        "no degenerate cron ranges N-N (croniter 6.2.4 expands them to '*'), no month/day 2/29 (datetime() raises in common years)",
+    ]
+    partial_note = ("proved about the model: successor property of once()/period()/lists, cron and sunrise/sunset through contracts; only "
+                    "validated against the running code: regex parsing, croniter, astral, zoneinfo data, float rounding, real sleeping "
+                    "(DESIGN.md §5)")
 
     def translate(self, ctx):
         return {"Gen/TimeConsts.v": gen_time_consts()}
@@ -922,8 +942,17 @@ class C06(Prop):
 PROP = C06()
 
 MANIFEST_ENTRY = {
-    "technique": "Rocq proof + in-Coq correspondence",
-    "level_text": "",
-    "level_note": "",
+    "technique": ("Rocq proof (calendar arithmetic with round-trip lemmas; successor property of once()/period()/cron-by-contract and of the "
+                  "<-minimum over lists, by arithmetic on Z microseconds) + in-Coq correspondence with the real parse_date_time / "
+                  "timer_trigger_next and with running @time_trigger functions on a virtual clock with real DST transitions"),
+    "level_text": ("Theorems C06_next_is_successor_partial / C06_strictly_increasing_partial / C06_idempotent_between_partial hold for every "
+                   "current time, startup time and list of specifications of the stated fragment, about a Gallina model of "
+                   "parse_date_time + timer_trigger_next whose unit table and day_dither lists are regenerated from trigger.py on every run "
+                   "and whose results are compared inside Coq with the real code on generated (string, parsed form) pairs around DST days, "
+                   "leap day, month/year ends and +-1 us of every anchor instant; running triggers (both subsystems) are checked to run once "
+                   "per instant with trigger_time equal to it, startup/shutdown once. Six deviations of the unchanged code are listed as "
+                   "known findings (D60-D64, D66)."),
+    "level_note": ("Trusted: Coq kernel+vm_compute; hand-written model of the two functions; generator/drivers in /verif/harness; croniter, "
+                   "astral, zoneinfo enter as data/contracts; float arithmetic is compared with the exact model, not modelled."),
     "design_ref": "DESIGN.md §4 C06",
 }
